@@ -9,10 +9,12 @@ S=/var/tmp/seedchk-$$
 rm -rf $S; mkdir -p $S; cp -r /repo/src /repo/tests /repo/.git /repo/pytest.ini /repo/setup.cfg /repo/pyproject.toml $S/ 2>/dev/null
 cd $S && git checkout -q -- . 2>/dev/null
 mkdir -p _out; cp "$OUT/demo.py" _out/
-echo "== demo on unchanged tree"; PYTHONPATH=$S/src /venv/bin/python _out/demo.py >/dev/null 2>&1; echo "exit $?" | tee "$OUT/demo_unchanged.txt"
+echo "== demo on unchanged tree (worktree with the change stashed)"
+( cd "$WT" && git stash -q -- src && PYTHONPATH=$WT/src /venv/bin/python _out/demo.py >/dev/null 2>&1; echo "exit $?"; git stash pop -q ) | tee "$OUT/demo_unchanged.txt"
 git apply "$OUT/patch.diff" || { echo "patch does not apply"; rm -rf $S; exit 3; }
 echo "== tests with patch"; PYTHONPATH=$S/src /venv/bin/python -m pytest -q -p no:cacheprovider 2>&1 | tail -1 | tee "$OUT/tests_with_patch.txt"
-echo "== demo with patch"; PYTHONPATH=$S/src /venv/bin/python _out/demo.py >/dev/null 2>&1; echo "exit $?" | tee "$OUT/demo_patched.txt"
+echo "== demo with patch (worktree as left by its author)"
+( cd "$WT" && PYTHONPATH=$WT/src /venv/bin/python _out/demo.py >/dev/null 2>&1; echo "exit $?" ) | tee "$OUT/demo_patched.txt"
 cd "$D"; rm -rf $S
 echo "== check $PROP on patched tree"
 harness/mutant.sh "$OUT/patch.diff" "$PROP" | grep -E "VIOLATION|tier=" | tee "$OUT/check_result.txt"
